@@ -26,6 +26,8 @@ const (
 	OpEvent  byte = 3 // revertible event
 	OpEventU byte = 4 // unrevertible event
 	OpFail   byte = 5 // end with an error
+	OpGet    byte = 6 // read a key (the value is discarded): leaves a clean entry in the staged store's cache
+	OpHas    byte = 7
 )
 
 type Instr struct {
@@ -266,6 +268,10 @@ func (command) Execute(ctx *statemachine.TransactionExecuteContext) error {
 			if err := ctx.EventQueue().AddUnrevertible(Name, "evu", in.Val, []codec.Hex{in.Key}); err != nil {
 				return err
 			}
+		case OpGet:
+			_, _ = ctx.GetStore(StorePrefix(in.Store), SubPrefix(in.Sub)).Get(in.Key)
+		case OpHas:
+			_ = ctx.GetStore(StorePrefix(in.Store), SubPrefix(in.Sub)).Has(in.Key)
 		case OpFail:
 			return errors.New("command failed as programmed")
 		case OpEnd:
